@@ -14,7 +14,8 @@ RULE = ('database states are built through the real ircdb API (newUser/setUser/a
         'hand-made and mutated file texts to the real readers and the model readers.  Every other state case is saved under one configuration and '
         'loaded under another (supybot.protocols.irc.strictRfc off->on, on->off, on->on for channels/networks/ignores, with ban masks that addBan accepts '
         'only while strictRfc is off: extbans, masks without ! / @; databases.users.timeoutIdentification 0<->1 for users); the load-time strictRfc is an '
-        'input of the model channel reader.  The dictionary under test is installed as ircdb.users while operations run, so refused operations '
+        'input of the model channel reader; the preferred encoding of the locale at load time (utf-8 / latin-1 / ascii, injected through the open() the readers call) '
+        'is varied as well and is an input of the model (reread).  The dictionary under test is installed as ircdb.users while operations run, so refused operations '
         '(nick already owned by another account, duplicate hostmask without pre-check, invalid capability) are exercised; every addNick/removeNick call is '
         'also diffed against the model of the mutators.  non-trivial = distinct case with at least one record')
 TRUSTED = ['str.isspace table, rfc1459 fold table, writer keywords and Creator method names are regenerated from the source (T16)',
@@ -39,7 +40,18 @@ LEVEL_TEXT = ('Coq theorems over an executable Gallina model of the ircdb.py wri
               '(keywords, handler names, whitespace/fold tables, creator defaults) and by the differential run against the real dictionaries on every check.')
 LEVEL_NOTE = ('Trusted: Coq kernel, gen_tables.py, extraction + OCaml driver, the Python harness; CPython primitives on their modelled domain; '
               'hostmask glob matching and the setUser collision handling are modelled and enter the users domain predicate.  The domain predicates are '
-              'extracted and evaluated on every generated state: a round-trip failure inside a domain is always a VIOLATION, never a known finding.')
+              'extracted and evaluated on every generated state: a round-trip failure inside a domain is always a VIOLATION, never a known finding.  '
+              'Modelled but not verified / not modelled (gap audit): (1) decoding is modelled on the whole file, the real reader decodes in 8 KiB chunks '
+              '(only matters for undecodable files, which the repaired readers never see); lone surrogates cannot be encoded: flush itself raises '
+              'UnicodeEncodeError and nothing is saved any more (API only, not generated); (2) str.lower() / re.I are ASCII-only in the model: cased '
+              'non-ASCII letters in names, channel keys and hostmasks are probed directly (lower() is idempotent on every code point, non-ASCII channel '
+              'keys round-trip) but not differentially modelled; (3) the flush that open() performs after a successful load, the later flush that makes '
+              'an aborted load permanent, reload() on a live instance (same open() on cleared dictionaries) and utils.file.AtomicFile (C17) are outside '
+              'the model; (4) nextId after a reload is the largest stored id, smaller than before if the newest account was deleted (ids can be reused; '
+              'not account data, compared model-vs-code only); (5) auth (logins), IrcChannel.silences/exceptions/expiredBans are not persisted by design '
+              'and outside the property text; (6) the conf sweep does not follow calls into utils/ircutils/log; (7) int()/float()/safeEval() are modelled '
+              'on the subsets the writers produce (no exponents, underscores, non-ASCII digits); ignore expiries >= 0; (8) the mutators other than '
+              'addNick/removeNick (addCapability, addHostmask, setUser refusal paths) are exercised by the generator but not modelled statement by statement.')
 TECHNIQUE = 'Coq proof (induction over records and lines, reader invariant) + regenerated tables + extracted-model differential correspondence'
 EXPLANATION = 'C16: writer/reader model of src/ircdb.py + src/unpreserve.py; theorems in coq/C16/Props.v'
 
@@ -58,6 +70,17 @@ def _ircdb():
         def rec(*a, **k):
             _state['exc'].append(sys.exc_info()[0].__name__ if sys.exc_info()[0] else 'logged')
         ircdb.log.exception = rec
+        import builtins
+        import supybot.unpreserve as unpreserve
+
+        def locale_open(fn, *a, **k):
+            # open() without encoding= uses the preferred encoding of the locale: an input of the check
+            mode = a[0] if a else k.get('mode', 'r')
+            if 'b' not in mode and k.get('encoding') is None:
+                k['encoding'] = _state.get('locale_enc', 'utf-8')
+            return builtins.open(fn, *a, **k)
+        unpreserve.open = locale_open
+        ircdb.open = locale_open
     return _state['ircdb']
 
 
@@ -68,6 +91,7 @@ def apply_cfg(c=None):
     c = c or {}
     conf.supybot.protocols.irc.strictRfc.setValue(bool(c.get('strict', False)))
     conf.supybot.databases.users.timeoutIdentification.setValue(int(c.get('timeout', 0)))
+    _state['locale_enc'] = c.get('encoding', 'utf-8')
 
 
 def cfg_of(inp, when):
@@ -332,6 +356,11 @@ def ws_mangled(inp):
     return False
 
 
+def name_hostmask(inp):
+    import supybot.ircutils as ircutils
+    return inp.get('db') == 'users' and any(ircutils.isUserHostmask(u[1]) for u in _final(inp))
+
+
 def hashed_nopw(inp):
     return inp.get('db') == 'users' and any(u[4] and not u[5] for u in _final(inp))
 
@@ -378,19 +407,19 @@ def _cls(f):
 
 CLASSES = {k: _cls(f) for k, f in {
     'field_newline': has_newline, 'name_blank': blank_name, 'field_ws_mangled': ws_mangled,
-    'hashed_without_password': hashed_nopw,
+    'hashed_without_password': hashed_nopw, 'name_hostmask_shaped': name_hostmask,
     'chan_default_anticap_removed': chan_default_removed, 'chan_unsafe_token': chan_unsafe,
     'net_unsafe_token': net_unsafe, 'ignore_unsafe_hostmask': ignore_unsafe}.items()}
 
 NAMES_SAFE = ['alice', 'Bob', 'x y', 'é', 'a#b', '#c', 'café au lait', 'n\x01', 'trail ', 'a b', 'CASE', 'zed',
               'a!b', 'a@b', 'x\x0c', 'x\x1cy', 'x y', 'x\x85', 'owner', 'name', 'user 7', 'q  q', '中文', '-', '0']
-NAMES_HOSTILE = ['x\n  capability owner', ' ', '', ' lead', 'a\tb', '\t', 'x\ry', 'x\r\n  hostmask *!*@*', ' nb', '\x0bvt',
+NAMES_HOSTILE = ['xxx!yyy@zzz', 'x\n  capability owner', ' ', '', ' lead', 'a\tb', '\t', 'x\ry', 'x\r\n  hostmask *!*@*', ' nb', '\x0bvt',
                  'a\nuser 9', ' ', 'x\n', '\nx', 'a\n\nb', 'a\n  name b', 'x\n  ignore True', '\x0c', 'x\n  bogus 1']
 PASSWORDS = ['ab12|0f0f0f', 'pw', 'p w', 'sha|é', 'P#1']
 PASSWORDS_HOSTILE = ['', ' p', 'a\tb', 'p\n  capability owner', 'p\r']
 CAPS = ['owner', 'admin', '-admin', 'op', '-op', 'Trusted', '#chan,op', '#chan,-op', '#Chan,OP', 'a.b', 'é', '-x', 'x', '[y]', '{y}',
         '-owner', 'a b', '', '&c,voice', 'x\n']
-HOSTS = ['al!ice@host', 'AL!ice@HOST', '*!*@host', 'bob!*@*.example', 'b[ob!x@y', 'b{ob!x@y', 'x!y@z', '*!*@*', 'n?ck!u@h', 'car!ol@hôte',
+HOSTS = ['xxx!yyy@*', 'al!ice@host', 'AL!ice@HOST', '*!*@host', 'bob!*@*.example', 'b[ob!x@y', 'b{ob!x@y', 'x!y@z', '*!*@*', 'n?ck!u@h', 'car!ol@hôte',
          'zz!yy@xx', 'nomask', 'a b!c@d', 'q!w@e\n', '#x!y@z', 'ab*!*@*', '*ab!*@*']
 NETS = ['libera', 'Net2', 'n 3']
 NICKS = ['alice', 'Al', 'bob_', '[x]', 'a b', '']
@@ -683,7 +712,10 @@ def load_ign(ircdb, text):
     fn = scratch('ignores.conf')
     write_text(fn, text)
     d = ircdb.IgnoresDB()
-    d.open(fn)
+    try:
+        d.open(fn)
+    except UnicodeDecodeError:
+        return [['!UnicodeDecodeError', -1]]
     return [[h, e] for h, e in d.hostmasks.items()]
 
 
@@ -724,16 +756,30 @@ def check_users_state(ctx, ircdb, ops, kind, batch, cfg=None):
 def flush_batch(ctx, ircdb, batch):
     """correspondence for a batch of state cases (writer text, reader result, domain predicate)"""
     cases = []
-    for db, inp, before, text, detail in batch:
+    ENC = {'utf-8': 0, 'latin-1': 1, 'ascii': 2}
+    need = [n for n, b in enumerate(batch) if cfg_of(b[1], 'load').get('encoding', 'utf-8') != 'utf-8']
+    dec = ctx.model([[17, [ENC[cfg_of(batch[n][1], 'load')['encoding']], batch[n][3]]] for n in need])
+    rtext = {}
+    for n, o in zip(need, dec):
+        if o is None:
+            continue
+        r = wire.r(o[1 if batch[n][0] == 'ignores' else 0], wire.s)
+        rtext[n] = r[1] if r[0] == 'ok' else None
+        if r[0] != 'ok':
+            ctx.dist['model-says-undecodable'] += 1
+    full = batch[:]
+    batch[:] = [b for n, b in enumerate(full) if rtext.get(n, '') is not None]      # undecodable ones: oracle only
+    rt = [rtext.get(n, b[3]) for n, b in enumerate(full) if rtext.get(n, '') is not None]
+    for (db, inp, before, text, detail), mtext in zip(batch, rt):
         if db == 'users':
-            cases += [[0, [wire_user(u) for u in before]], [1, [[], text]], [2, [wire_user(u) for u in before]]]
+            cases += [[0, [wire_user(u) for u in before]], [1, [[], mtext]], [2, [wire_user(u) for u in before]]]
         elif db == 'channels':
-            cases += [[3, [[k, c] for k, c in before]], [14, [bool(cfg_of(inp, 'load').get('strict')), [], text]],
+            cases += [[3, [[k, c] for k, c in before]], [14, [bool(cfg_of(inp, 'load').get('strict')), [], mtext]],
                       [5, [[k, c] for k, c in before]]]
         elif db == 'networks':
-            cases += [[6, [[k, n] for k, n in before]], [7, [[], text]], [8, [[k, n] for k, n in before]]]
+            cases += [[6, [[k, n] for k, n in before]], [7, [[], mtext]], [8, [[k, n] for k, n in before]]]
         elif db == 'ignores':
-            cases += [[9, [NOW, [[h, exp_wire(e)] for h, e in before]]], [10, text],
+            cases += [[9, [NOW, [[h, exp_wire(e)] for h, e in before]]], [10, mtext],
                       [11, [NOW, [[h, exp_wire(e)] for h, e in before]]]]
     outs = ctx.model(cases)
     i = 0
@@ -949,6 +995,12 @@ CORPUS = [
     {'db': 'users', 'ops': [['reg', 'a', 'pw', 'x!y@z'], ['reg', 'b', 'pw', ''], ['host!', 1, 'x!y@z'], ['host!', 1, 'X!Y@Z'], ['cap', 1, 'a b'],
                             ['cap', 1, '-owner'], ['nick', 0, 'n 3', 'alice'], ['nick', 1, 'libera', 'a b'], ['unnick', 1, 'libera', 'nobody'],
                             ['nick', 0, 'libera', 'alice'], ['nick', 0, 'libera', 'alice'], ['nick', 1, 'Net2', 'alice'], ['nick', 1, 'libera', 'alice']]},
+    {'db': 'users', 'ops': [['reg', 'one', 'pw', ''], ['reg', 'café', 'pw', 'né!u@h'], ['reg', 'three', 'pw', '']], 'cfg': {'load': {'encoding': 'latin-1'}}},
+    {'db': 'users', 'ops': [['reg', 'one', 'pw', ''], ['reg', 'café', 'pw', ''], ['reg', 'three', 'pw', '']], 'cfg': {'load': {'encoding': 'ascii'}}},
+    {'db': 'channels', 'ops': [['flags', '#é', True, True], ['ban', '#z', 'né!u@h', 0]], 'cfg': {'load': {'encoding': 'ascii'}}},
+    {'db': 'networks', 'ops': [['sts', 'réseau', 'a.b', 'p']], 'cfg': {'load': {'encoding': 'latin-1'}}},
+    {'db': 'ignores', 'ops': [['add', 'né!u@h', 0], ['add', 'a!b@c', 0]], 'cfg': {'load': {'encoding': 'ascii'}}},
+    {'db': 'users', 'ops': [['reg', 'one', 'pw', ''], ['reg', 'xxx!yyy@zzz', 'pw', ''], ['reg', 'three', 'pw', ''], ['host', 0, 'xxx!yyy@*']]},
     {'db': 'channels', 'ops': [['ban', '#alpha', 'a!b@c', 0], ['ban', '#help', '$a:Troll', 0], ['flags', '#zeta', True, True]],
      'cfg': {'save': {'strict': False}, 'load': {'strict': True}}},
     {'db': 'channels', 'ops': [['ban', '#help', 'nomask', 1700000000], ['ban', '#help', '~q:nick!*@*', 0]],
@@ -984,7 +1036,7 @@ def run(ctx):
     for db in ('users', 'channels', 'networks', 'ignores'):
         check_texts(ctx, ircdb, db, [(t, u0) for d, t, u0 in CORPUS_TEXTS if d == db], 'corpus-text-' + db)
     gens = {'users': gen_user_ops, 'channels': gen_chan_ops, 'networks': gen_net_ops, 'ignores': gen_ign_ops}
-    budget = {'users': 700, 'channels': 700, 'networks': 700, 'ignores': 700}
+    budget = {'users': 600, 'channels': 600, 'networks': 600, 'ignores': 600}
     texts = {db: [] for db in gens}
     for db, gen in gens.items():
         for n in range(ctx.n(budget[db])):
@@ -996,9 +1048,15 @@ def run(ctx):
                 if db in ('channels', 'ignores', 'networks'):
                     sv, ld = rng.choice([(False, True), (False, True), (True, False), (True, True)])
                     cfg, tag = {'save': {'strict': sv}, 'load': {'strict': ld}}, '-strictRfc:%s->%s' % ('on' if sv else 'off', 'on' if ld else 'off')
+                    enc = rng.choice(['utf-8', 'latin-1', 'ascii'])
+                    if enc != 'utf-8':
+                        cfg['load']['encoding'], tag = enc, tag + '-locale:' + enc
                 else:
                     sv, ld = rng.choice([(0, 1), (1, 0), (1, 1)])
                     cfg, tag = {'save': {'timeout': sv}, 'load': {'timeout': ld, 'strict': rng.random() < 0.5}}, '-cfg-varied'
+                    enc = rng.choice(['utf-8', 'latin-1', 'ascii'])
+                    if enc != 'utf-8':
+                        cfg['load']['encoding'], tag = enc, tag + '-locale:' + enc
             d = check_state(ctx, ircdb, db, ops, db + ('-hostile' if hostile else '-valid') + tag, batch, cfg)
             if d:
                 ctx.fail(mk_inp(db, ops, cfg), d)
